@@ -48,6 +48,28 @@ pub fn run(ctx: &Ctx) {
         check_case(ctx, &tcs, &cfg_i);
     });
     ctx.run.space(json!({"universe": if thorough {"U_scalar (all scalars)"} else {"U_scalar slice (case-nontrivial scalars +-1, table boundaries, one per 256-block)"}, "sets": list.len(), "settings": "i", "cases": list.len()}));
+    // (a') every cased scalar together with its std lower/upper-case partner, in both list orders and inside
+    // one string in both orders: the partner is what lower-casing maps to, so any per-call state, cache or
+    // shortcut keyed on one of them meets the other
+    let mut pairs: Vec<Vec<String>> = vec![];
+    for c in (0..=0x10FFFFu32).filter_map(char::from_u32) {
+        let lo: Vec<char> = c.to_lowercase().collect();
+        let up: Vec<char> = c.to_uppercase().collect();
+        for p in [lo, up] {
+            if p.len() == 1 && p[0] != c {
+                pairs.push(vec![p[0].to_string(), c.to_string()]);
+                pairs.push(vec![c.to_string(), p[0].to_string()]);
+                pairs.push(vec![format!("{}{}", p[0], c)]);
+                pairs.push(vec![format!("{}{}", c, p[0])]);
+                pairs.push(vec![format!("{}x", p[0]), format!("{}y", c)]);
+            }
+        }
+    }
+    par_for(pairs.len(), |i| {
+        ctx.run.mark_nontrivial(hash_case(&pairs[i], &cfg_i));
+        check_case(ctx, &pairs[i], &cfg_i);
+    });
+    ctx.run.space(json!({"universe": "every scalar with a single-scalar std lower- or upper-case partner p: lists [p,c], [c,p], [\"pc\"], [\"cp\"], [\"px\",\"cy\"] (list order as given)", "sets": pairs.len(), "settings": "i", "cases": pairs.len()}));
     let bases: Vec<Cfg> = [0, R, X, G, E, D, W].iter().map(|b| Cfg::new(I | b)).collect();
     let mut blocks = vec![Block::new(Universe::new("U_adv(A_case)", A_CASE, if thorough { 3 } else { 2 }, 2, true), bases.clone(), "i x {{}, r, x, g, e, d, w}")];
     blocks.push(Block::new(Universe::new("U_adv(A_case)", A_CASE, 3, 1, false), bases.clone(), "i x {{}, r, x, g, e, d, w}"));
